@@ -2,6 +2,7 @@ import SpVerif.J
 import SpVerif.Model.PusTc
 import SpVerif.Model.PusTm
 import SpVerif.Model.Srv1
+import SpVerif.Model.CfdpFront
 import SpVerif.Proofs.CrcBurstBytes
 /-!
 # C04 ops: CRC of arbitrary data, verdict of the modelled decoders on burst-corrupted packets
@@ -11,9 +12,8 @@ import SpVerif.Proofs.CrcBurstBytes
 `c04_<kind>_corrupt` {raw, bit_offset, pattern, …}            → verdict of the decoder on `flipBurst raw bit_offset pattern`
 `c04_<kind>_sweep`   {raw, patterns, crc_every, …}            → whole fault enumeration of one packet in one line
 
-kinds: `tc`, `tm` (ts_len), `s17` (ts_len), `s1` (ts_len, step_bytes, err_bytes). Every kind is an entry
-of `kinds`; `frame` (ex_lo, ex_hi: generic CRC frame, residue zero over the whole string).
-a further kind only needs a decoder `Bytes → Py Unit`, the excluded bit range and the
+kinds: `tc`, `tm` (ts_len), `s17` (ts_len), `s1` (ts_len, step_bytes, err_bytes), `cfdp`, `cfdpdir` (optional cls "lo:hi"), Every kind is an entry
+of `kinds`; a further kind only needs a decoder `Bytes → Py Unit`, the excluded bit range and the
 bit range in which another documented error than the checksum error may come first.
 -/
 namespace SpVerif.Ops.Crc
@@ -57,9 +57,29 @@ def kS17 (j : Json) : R Kind := do
 def kS1 (j : Json) : R Kind := do
   let n ← getNat j "ts_len"; let sb ← getNat j "step_bytes"; let eb ← getNat j "err_bytes"
   pure ⟨fun d => unit (Srv1.S1Tm.unpack d n sb eb), 32, 48, 48, 52⟩
-/-- generic CRC frame: "accepted" iff residue zero over the whole string; excluded bit range from the op line -/
-def kFrame (j : Json) : R Kind := do
-  pure ⟨fun d => if crc16 d = 0 then .ok () else .error .crc, ← getNat j "ex_lo", ← getNat j "ex_hi", 0, 0⟩
+/-- "lo:hi" → (lo, hi); field absent → (0, 0) -/
+def getRange (j : Json) (k : String) : R (Nat × Nat) :=
+  match j.getObjVal? k with
+  | .error _ => pure (0, 0)
+  | .ok v =>
+    match v.getStr? with
+    | .error _ => throw s!"field {k}: not a string"
+    | .ok s =>
+      match s.splitOn ":" with
+      | [a, b] =>
+        match a.toNat?, b.toNat? with
+        | some lo, some hi => pure (lo, hi)
+        | _, _ => throw s!"field {k}: not lo:hi"
+      | _ => throw s!"field {k}: not lo:hi"
+
+/-- CFDP: octets 0–3 excluded. `cfdp` = File Data decoder front, `cfdpdir` = file-directive decoder front.
+    Optional "cls": bit range (the directive-code octet for the factory, whose dispatch reads it first). -/
+def kCfdp (j : Json) : R Kind := do
+  let (cl, ch) ← getRange j "cls"
+  pure ⟨fun d => unit (CfdpFront.pduFront d), 0, 32, cl, ch⟩
+def kCfdpDir (j : Json) : R Kind := do
+  let (cl, ch) ← getRange j "cls"
+  pure ⟨fun d => unit (CfdpFront.directiveFront d), 0, 32, cl, ch⟩
 
 def isOk {α} : Py α → Bool
   | .ok _ => true
@@ -104,7 +124,11 @@ def kindOps (tag : String) (mk : Json → R Kind) : List (String × Handler) := 
       let k ← getNat j "bit_offset"
       let B ← getBits j "pattern"
       let kd ← mk j
+      -- outside the property's fault model (only reachable when a failing case is being minimised)
       if 8 * raw.length < k + B.length then throw "window outside the packet"
+      if B.length = 0 ∨ 16 < B.length ∨ B = List.replicate B.length false then throw "not a burst pattern"
+      if meets k B.length kd.exLo kd.exHi then throw "window meets a length-determining octet"
+      if !(isOk (kd.dec raw)) then throw "base packet is not accepted by the model"
       let d' := flipBurst raw k B
       pure (res (fun (_ : Unit) => obj [("accepted", jb true)]) (kd.dec d'))),
   (s!"c04_{tag}_sweep", fun j => do
@@ -155,6 +179,6 @@ def ops : List (String × Handler) := [
             let t := match sd with | some d => t.setTmData d | none => t
             let raw ← t.pack
             pure (first, raw))))
-] ++ kindOps "tc" kTc ++ kindOps "tm" kTm ++ kindOps "s17" kS17 ++ kindOps "s1" kS1 ++ kindOps "frame" kFrame
+] ++ kindOps "tc" kTc ++ kindOps "tm" kTm ++ kindOps "s17" kS17 ++ kindOps "s1" kS1 ++ kindOps "cfdp" kCfdp ++ kindOps "cfdpdir" kCfdpDir
 
 end SpVerif.Ops.Crc
